@@ -1,4 +1,6 @@
 """C13 — whatever a connection used is given back when it ends"""
+from lagcommon import LagMode, LAG_RULE
+from tiecommon import TIE_DENY, TIE_TTLCODE, TIE_CHANMAP, TIE_NOTE, TIE_ASSUMPTION
 import vlib
 from hubcommon import HubMode
 from relaycommon import RelayMode
@@ -20,6 +22,12 @@ P = "Relay.Props.C13"
 THEOREMS = [(f"Life.{n}", P) for n in ["all_released", "progress", "footprint", "inv_cause_all", "inv_step_all", "released_all",
                                         "shutdown_quiesces", "loops_present", "teardown_as_modelled"]] + \
            [("ChanMap.delchild_removes", "Relay.Props.C08ChanMap"), ("Relay.gone_not_reported", "Relay.Props.C14Members")]
+THEOREMS = THEOREMS + TIE_CHANMAP + TIE_TTLCODE
+RULE = TIE_NOTE + RULE
+ASSUMPTIONS = ASSUMPTIONS + [TIE_ASSUMPTION]
+
+RULE = RULE + LAG_RULE
+
 
 
 class LeakMode(vlib.Mode):
@@ -87,4 +95,4 @@ class ChanMapForC13(c08.ChanMapMode):
 
 
 def modes(tier):
-    return [LeakMode(), HubMode("C13"), ChanMapForC13(), RelayMode("C13")]
+    return [LeakMode(), HubMode("C13"), ChanMapForC13(), RelayMode("C13"), LagMode("C13")]
